@@ -61,6 +61,18 @@ pub fn check(case: &Case) -> Outcome {
         );
     }
 
+    // The decoder is a function of its input alone: damaged copies of the document (cut short inside its containers,
+    // closing `e`s removed) are decoded first, in the same thread, and must not change what the intact one decodes to.
+    if enc.len() >= 2 {
+        let cut_half = &enc[..enc.len() / 2];
+        let cut_last = &enc[..enc.len() - 1];
+        let no_e: Vec<u8> = enc.iter().copied().filter(|b| *b != b'e').collect();
+        for damaged in [cut_half, cut_last, &no_e[..]] {
+            let _ = catch(|| BDecoder::from_array(damaged).map(|_| ()));
+        }
+        o.class("damaged-copies-decoded-first");
+    }
+
     // (1)+(4) decode(encode(v1)++encode(v2)..) == [v1, v2, ..]
     match catch(|| BDecoder::from_array(&enc)) {
         Ok(Ok(dec)) => {
@@ -99,7 +111,7 @@ fn run(ctx: &WorkerCtx) -> WorkerReport {
 pub fn def() -> PropDef {
     PropDef {
         id: "C15",
-        rule: "cases are 1-3 generated bencode values (ints over all of i64 with edge bias, delimiter-rich byte strings, lists/dicts to depth 5, unique keys incl. prefixes of one another); checked: rdest encoder output == independent canonical writer, decode(encode)==identity also for concatenations, encode(decode(canonical doc))==doc. Non-trivial = nesting depth >= 2 or a string containing a delimiter byte; distinct by hash of the case.",
+        rule: "cases are 1-3 generated bencode values (ints over all of i64 with edge bias, delimiter-rich byte strings, lists/dicts to depth 5, unique keys incl. prefixes of one another); checked: rdest encoder output == independent canonical writer, decode(encode)==identity also for concatenations and also right after the same thread has decoded damaged copies of the document (cut in half, last byte missing, every `e` removed: the decoder keeps no state between calls), encode(decode(canonical doc))==doc. Non-trivial = nesting depth >= 2 or a string containing a delimiter byte; distinct by hash of the case.",
         assumptions: &[
             "dictionary keys are unique in generated values (BValue::Dict is a HashMap and cannot represent duplicates)",
             "reference canonical writer in harness/src/refmodel/bencode.rs is trusted",
